@@ -8,7 +8,8 @@ CONFIG = "tftpd::config::Config"
 
 
 def repeat_loops(R):
-    """loops `for _ in 0..r` that contain a socket send: [(fid, h, range_end_sym_is_repeat, send_nodes_in_loop)]"""
+    """loops `for _ in a..b` (or `(a..b).for_each / try_for_each(..)`) that contain a socket send:
+    [(fid, h, (start value, end value) or None, nodes of the loop)]"""
     eng = R.eng
     out = []
     seen = set()
@@ -16,14 +17,34 @@ def repeat_loops(R):
         for (fid, h) in R.loops_containing(n):
             if (fid, h) in seen:
                 continue
-            ln = R.loop_nodes(fid, h)
-            # iteration protocol: Range<int>::next in the loop's own frame, inside the loop
-            nexts = [e for e in R.events if e.ctx == fid and e.bb in eng.frame_bodies[fid].loops[h] and
-                     base_name(e) == "std::iter::range::<impl std::iter::Iterator for std::ops::Range<A>>::next"]
-            if not nexts:
-                continue
+            rng = None
+            if (fid, h) in getattr(eng, "iter_loops", {}):
+                info = eng.iter_loops[(fid, h)]
+                for ev in R.by_node.get(info["caller"], []):
+                    if ev.inlined or not ev.args:
+                        continue
+                    sub = None
+                    if isinstance(ev.args[0], tuple) and ev.args[0][0] == "agg":
+                        sub = ev.args[0][1]
+                    elif ev.argsnap and isinstance(ev.argsnap[0], dict):
+                        sub = ev.argsnap[0]     # adapters taking `&mut self`
+                    if sub is not None and sub.get((0,)) is not None and sub.get((1,)) is not None and sub.get(("$over",)) is None:
+                        rng = (sub.get((0,)), sub.get((1,)))
+                if rng is None:
+                    continue
+            else:
+                # iteration protocol: Range<int>::next in the loop's own frame, inside the loop
+                nexts = [e for e in R.events if e.ctx == fid and e.bb in eng.frame_bodies[fid].loops[h] and
+                         base_name(e) == "std::iter::range::<impl std::iter::Iterator for std::ops::Range<A>>::next"]
+                if not nexts:
+                    continue
+                for e in R.events:
+                    if e.ctx == fid and base_name(e) == "<I as std::iter::IntoIterator>::into_iter" and isinstance(e.args[0], tuple) and e.args[0][0] == "agg":
+                        sub = e.args[0][1]
+                        if sub.get((0,)) is not None and sub.get((1,)) is not None:
+                            rng = (sub.get((0,)), sub.get((1,)))
             seen.add((fid, h))
-            out.append((fid, h, nexts, ln))
+            out.append((fid, h, rng, R.loop_nodes(fid, h)))
     return out
 
 
@@ -43,30 +64,29 @@ def check(world, tier):
     a = rep.clause("C16.a", "N+1 copies: loop 0..r, one send of the same packet per iteration, r = duplicate_packets + 1")
     b = rep.clause("C16.b", "all DATA / ACK of the data phase go through the repeat loop; handshake replies are sent once")
     c = rep.clause("C16.c", "start-up rejection: 0 <= duplicate_packets <= 254 at every Ok return of Config::new")
+    d = rep.clause("C16.d", "surplus copies are inert: a repeated ACK / DATA neither consumes the retry budget nor aborts")
     regions = [(region_for(world, eng, "::send"), "send"), (region_for(world, eng, "::receive"), "receive")]
     if any(r is None for r, _ in regions):
         a.fail("anchor-lost worker-closures", "worker closures not found")
         return rep
-    fi_dup = prog.field_index(SERVER, "duplicate_packets")
+    p_dup = world.server_layout().get("duplicate_packets")
     for (R, tag) in regions:
         g = R.g
         rl = repeat_loops(R)
         a.need(len(rl), 1, "repeat loop around a socket send (%s)" % tag)
         data_phase = set(R.send_nodes(variants=("Data", "Ack")))
         in_loop = set()
-        for (fid, h, nexts, ln) in rl:
+        for (fid, h, rng, ln) in rl:
             sends = set(n for n in R.send_nodes() if n in ln)
             sites = call_sites_in_frame(R, sends, fid)
             in_loop |= sends
             # range 0..r
             rng_ok = False
-            for e in R.events:
-                if e.ctx == fid and base_name(e) == "<I as std::iter::IntoIterator>::into_iter" and isinstance(e.args[0], tuple) and e.args[0][0] == "agg":
-                    sub = e.args[0][1]
-                    st_, en_ = sub.get((0,)), sub.get((1,))
-                    if st_ is not None and st_[0] == "i" and st_[1] == (0, ()) and en_ is not None and en_[0] == "i":
-                        s_ = single_sym(en_[1])
-                        rng_ok = env_field(R, s_, "repeat_amount")
+            if rng is not None:
+                st_, en_ = rng
+                if st_ is not None and st_[0] == "i" and st_[1] == (0, ()) and en_ is not None and en_[0] == "i":
+                    s_ = single_sym(en_[1])
+                    rng_ok = env_field(R, s_, "repeat_amount")
             a.ob(rng_ok, "repeat-range %s" % tag, "the repeat loop of the %s worker does not run over 0..repeat_amount" % tag,
                  sample={"region": tag, "loop": node_str(prog, (fid, h)), "range": "0..Worker.repeat_amount" if rng_ok else "?"})
             # exactly one send per iteration
@@ -115,7 +135,7 @@ def check(world, tier):
         b.ob(not inner_loop, "handshake-reply-in-loop in %s" % short(e.body), "a handshake reply on the listener is sent inside a loop", e.loc)
     # r = duplicate_packets + 1 at Worker::new
     self_root = ("P", ("L", eng.entry_frame, 1), ())
-    dup_sym = eng.sym_ids.get(("init", self_root, (fi_dup,))) if fi_dup is not None else None
+    dup_sym = eng.sym_ids.get(("init", self_root, tuple(p_dup))) if p_dup is not None else None
     news = [e for e in eng.events if e.region == "listener" and e.inlined and base_name(e).endswith("worker::Worker::new")]
     a.need(len(set(e.node for e in news)), 2, "Worker::new call sites on the listener")
     for e in news:
@@ -142,9 +162,8 @@ def check(world, tier):
     if new in prog.bodies:
         en = world.run("fn:" + new)
         for s in [s for s in en.finals if ret_discr(en, s) == 0]:
-            v = en.read(s, ("L", en.entry_frame, 0), (("v", 0), 0, fi_dup))
-            cfgv = en.read(s, ("P", ("L", en.entry_frame, 1), ()), (fi_cd,))
-            c.ob(v == cfgv or (v[0] == "i" and cfgv[0] == "i" and v[1] == cfgv[1]), "server-new-copies-duplicate-packets",
+            # server_layout maps Config.duplicate_packets to the place Server::new copies it to (None if it is not copied)
+            c.ob(p_dup is not None, "server-new-copies-duplicate-packets",
                  "Server::new does not take duplicate_packets from the Config", sample={"Server.duplicate_packets": "Config.duplicate_packets"})
     # the server binary builds Config only through Config::new
     bn = world.bins.get("tftpd.bin")
@@ -161,4 +180,6 @@ def check(world, tier):
                     calls += 1
         c.ob(made == 0 and calls >= 1, "bin-builds-config-by-hand", "the tftpd binary constructs a Config other than through Config::new",
              sample={"Config::new calls in bin": calls, "Config struct literals in bin": made})
+    from . import C04
+    import_clause(world, tier, d, C04, "C04.c", ("stale-", "retry-counter"), "surplus-copies-inert")
     return rep
